@@ -125,7 +125,7 @@ pub fn run(tier: Tier) -> i32 {
     let mut rep = Report::new("C04", tier);
     crate::engine::start_watchdog("C04", std::time::Duration::from_secs(120));
     let alpha = t32();
-    let l = tier.pick(7, 8);
+    let l = tier.pick(6, 8);
     let mut st = Stats::default();
     for t in 0..alpha.len() {
         let seq = [t as u8];
